@@ -11,6 +11,8 @@ mod bg;
 mod gen;
 mod interpose;
 mod lin;
+mod net;
+mod resp;
 mod netscn;
 mod runner;
 mod scan;
